@@ -767,7 +767,12 @@ def check_c20(tier, seed):
             ("17-byte counter/tweak", ["-k", k16, "-c", k16 + "00", good_in, "OUT"]),
             ("key too long, -b given last", ["-k", k16 * 2, "-b", "64", good_in, "OUT"]),
             ("key too short, -b given first", ["-b", "64", "-k", "00112233445566", good_in, "OUT"]),
-            ("bad -b", ["-b", "96", "-k", k16, good_in, "OUT"]), ("missing file arguments", ["-k", k16]), ("missing output file", ["-k", k16, good_in]),
+            ("bad -b", ["-b", "96", "-k", k16, good_in, "OUT"]),
+            ("-b 65", ["-b", "65", "-k", k16, good_in, "OUT"]), ("-b 71", ["-b", "71", "-k", k16, good_in, "OUT"]), ("-b 129", ["-b", "129", "-k", k16, good_in, "OUT"]),
+            ("-b 64x", ["-b", "64x", "-k", k16, good_in, "OUT"]), ("-b 128bit", ["-b", "128bit", "-k", k16, good_in, "OUT"]), ("-b 0", ["-b", "0", "-k", k16, good_in, "OUT"]),
+            ("-b -64", ["-b", "-64", "-k", k16, good_in, "OUT"]), ("-b ' 64'", ["-b", " 64", "-k", k16, good_in, "OUT"]), ("-b 8", ["-b", "8", "-k", k16, good_in, "OUT"]),
+            ("-b 16", ["-b", "16", "-k", k16, good_in, "OUT"]), ("-b 1024", ["-b", "1024", "-k", k16, good_in, "OUT"]),
+            ("missing file arguments", ["-k", k16]), ("missing output file", ["-k", k16, good_in]),
             ("unreadable input", ["-k", k16, os.path.join(work, "does-not-exist"), "OUT"]), ("unknown option", ["-x", "-k", k16, good_in, "OUT"]),
             ("empty counter/tweak", ["-k", k16, "-c", "", good_in, "OUT"])]
     ninv = 0
